@@ -89,6 +89,12 @@ type cacheEnv struct {
 	// meaningful for unit sizes).
 	noCallback  bool
 	defaultSize bool
+	// sizeLast: call OnEvict before WithSize when building the Config (the
+	// options are documented as independent of their order).
+	sizeLast bool
+	// noWrap: do not wrap the store (C09): an implementation may look at the
+	// store's concrete type or optional methods, which a wrapper would hide.
+	noWrap bool
 }
 
 // injectedPanic is the value a faulty user callback panics with.
@@ -138,16 +144,20 @@ type cacheMaker func(e *cacheEnv) cacheAPI
 
 func makeReal(e *cacheEnv) cacheAPI {
 	cfg := cache.LRU[int, int]()
-	if !(e.defaultSize && !e.sized) {
+	withSize := !(e.defaultSize && !e.sized)
+	if withSize && !e.sizeLast {
 		cfg = cfg.WithSize(e.sizeOf)
 	}
 	if !e.noCallback {
 		cfg = cfg.OnEvict(e.onEvict)
 	}
+	if withSize && e.sizeLast {
+		cfg = cfg.WithSize(e.sizeOf)
+	}
 	if e.uptime > 0 {
 		cache.VerifAdvanceClock(cfg, e.uptime)
 	}
-	if e.yields {
+	if e.yields && !e.noWrap {
 		cfg = cache.VerifWrapStore(cfg, func(s cache.Store[int, int]) cache.Store[int, int] { return &yieldStore{s} })
 	}
 	return cache.New(e.limit, cfg)
@@ -155,16 +165,20 @@ func makeReal(e *cacheEnv) cacheAPI {
 
 func makeTwin(e *cacheEnv) cacheAPI {
 	cfg := cachefix.LRU[int, int]()
-	if !(e.defaultSize && !e.sized) {
+	withSize := !(e.defaultSize && !e.sized)
+	if withSize && !e.sizeLast {
 		cfg = cfg.WithSize(e.sizeOf)
 	}
 	if !e.noCallback {
 		cfg = cfg.OnEvict(e.onEvict)
 	}
+	if withSize && e.sizeLast {
+		cfg = cfg.WithSize(e.sizeOf)
+	}
 	if e.uptime > 0 {
 		cachefix.VerifAdvanceClock(cfg, e.uptime)
 	}
-	if e.yields {
+	if e.yields && !e.noWrap {
 		cfg = cachefix.VerifWrapStore(cfg, func(s cachefix.Store[int, int]) cachefix.Store[int, int] { return &yieldStore{s} })
 	}
 	return cachefix.New(e.limit, cfg)
